@@ -136,26 +136,28 @@ def run_inputs(build, inputs, jobs=None, timeout=20, hooks=True, env_extra=None,
             out = b""
         r.stdout = out
         r.timeout = r.rc == TIMEOUT_RC or r.rc == 137
-        if r.rc > 128 and not r.timeout:
-            r.signal = r.rc - 128
         plain = ECHO_LINE.sub(b"", out)
         r.errl = len(ERR_LINE.findall(plain))
         fault = fault_of(r.rc, plain)
-        if r.signal and not fault:
-            fault = "signal"
         raw = []
         ndp = os.path.join(d, "r%d.nd" % i)
         if hooks and os.path.exists(ndp):
-            for line in open(ndp, errors="replace"):
-                line = line.strip()
-                if line:
-                    try:
-                        raw.append(json.loads(line))
-                    except ValueError:
-                        if r.signal or r.timeout:
-                            break       # the process died while writing the line
-                        raise vlib.MachineryError("unparsable hook event: %r" % line)
+            lines = [x.strip() for x in open(ndp, errors="replace") if x.strip()]
+            for li, line in enumerate(lines):
+                try:
+                    raw.append(json.loads(line))
+                except ValueError:
+                    if li == len(lines) - 1 and (r.timeout or r.rc > 128):
+                        break           # the process died while writing its last line
+                    raise vlib.MachineryError("unparsable hook event: %r" % line)
             os.unlink(ndp)
+        # The shell reports death by signal n as status 128+n, and the compiler's own exit status is its error count, which
+        # may be as large: a status in 129..159 is a signal only if the process did not announce its exit (hook event Exit)
+        # -- without hooks, only if it printed no error at all.
+        announced = any(e.get("ev") == "Exit" for e in raw)
+        if 128 < r.rc < 160 and not r.timeout and not announced and (hooks or r.errl == 0):
+            r.signal = r.rc - 128
+            fault = fault or "signal"
         evs = [{"ev": "Reset", "nfiles": 1, "requested": [k for k in dt.KINDS if k in inp.kinds], "post": [],
                 "hooks": bool(hooks)}]
         for e in raw:
@@ -302,3 +304,28 @@ def crash_site(build, inp, timeout=60, hang_after=None):
         inner = [f for f in frames if f.split(":")[0] not in ("axlcomp.c", "main.c")]
         return inner[-1] if inner else ""
     return frames[0] if frames else ""
+
+
+def error_site(build, inp, timeout=60):
+    """Who reports the first error of this run: "file.c:function" of the caller of comsgError/comsgFatal under gdb.
+    Used only for the key of a finding (an error that is counted but not printed)."""
+    d = vlib.scratch("c07es")
+    for fn, data in inp.files.items():
+        with open(os.path.join(d, fn), "wb") as fh:
+            fh.write(data)
+    with open(os.path.join(d, "t.as"), "wb") as fh:
+        fh.write(inp.data)
+    cmd = ["gdb", "-q", "-batch", "-ex", "break comsgVError", "-ex", "break comsgVFatal", "-ex", "run", "-ex", "bt 6",
+           "--args", build["aldor"]] + vlib.ALDOR_BASE_ARGS + ["-F" + k for k in inp.kinds] + inp.args + ["t.as"]
+    try:
+        p = subprocess.run(cmd, cwd=d, stdout=subprocess.PIPE, stderr=subprocess.STDOUT, timeout=timeout, stdin=subprocess.DEVNULL)
+        out = p.stdout.decode(errors="replace")
+    except subprocess.TimeoutExpired as e:
+        out = (e.stdout or b"").decode(errors="replace")
+    shutil.rmtree(d, ignore_errors=True)
+    for m in re.finditer(r"^#\d+\s+(?:0x[0-9a-f]+ in )?([A-Za-z_][A-Za-z0-9_]*) \(.*?\)(?: at ([A-Za-z0-9_./-]+):\d+)?\s*$", out, re.M):
+        f, src = m.group(1), os.path.basename(m.group(2) or "")
+        if src == "comsg.c" or not src.endswith(".c"):
+            continue
+        return "%s:%s" % (src, f)
+    return ""
